@@ -5,9 +5,10 @@ same primitive widths, order and named fields as the record `WmoParser::parse_*`
 chunk size a writer declares equals element count × the computed width of what it writes per
 element; no reader-used field is written as a constant placeholder; header counts are lengths.
 """
+import os
 import re
 
-from .. import hirq, wire
+from .. import facts, hirq, wire
 from ..rules import norm
 
 META = {
@@ -68,6 +69,61 @@ def run(ctx):
     R_cnt = ctx.rule("C15.header-counts-are-lengths", "every count in MOHD is the len() of a list", floor=5)
 
     W = {norm(f.path).split("::")[-1]: f for f in wmo.fn_list if "writer::WmoWriter::write_" in f.path and f.kind != "Closure" and f.hir}
+
+    # group files: the fixed MOGP header the writer emits is as long as the one the group parser consumes
+    R_mogp = ctx.rule("C15.group-header-width-agrees", "WmoWriter::write_group emits as many fixed header bytes between the MOGP chunk header and the first sub-chunk as parse_group_file reads (MogpHeader)", floor=1)
+    wg = W.get("write_group")
+    mogp = next((a for a in wmo.items["adts"] if a["path"].endswith("group_parser::MogpHeader")), None)
+    if wg is None or mogp is None:
+        ctx.bad(R_mogp, "write_group|missing", "-", "write_group or MogpHeader not found", "anchor gone")
+    else:
+        ctx.saw_fn(wg)
+        toks, _ = wire.extract(wmo, wg, "w")
+        flat_ = [t for t in wire.specialise(toks, {})]
+        w_bytes = 0
+        started = False
+        for t in flat_:
+            if t.k == "S" and not started:
+                # version chunk / MOGP ChunkHeader come first
+                if "ChunkHeader" in (t.sub or t.kind or ""):
+                    started = True
+                continue
+            if not started:
+                continue
+            if t.k in ("P", "B") and t.w:
+                w_bytes += t.w
+            else:
+                break
+        # MogpHeader: field widths from the struct (Vec fields carry a #[br(count = n)] read from the source)
+        src = open(os.path.join(facts.REPO, mogp["file"])).read().split("\n") if mogp.get("file") else []
+        r_bytes = 0
+        cnt = None
+        ok_struct = True
+        for fl in mogp["fields"]:
+            wdt = wire.ty_width(fl["ty"])
+            if wdt is None:
+                m_ = re.search(r"Vec<(\w+)>", fl["ty"])
+                ln_ = next((i for i, l_ in enumerate(src) if i >= (mogp.get("ln") or 1) - 1 and re.search(r"\b%s\s*:" % re.escape(fl["name"]), l_)), None)
+                c_ = None
+                if ln_ is not None:
+                    for back in range(1, 4):
+                        mm = re.search(r"count\s*=\s*(\d+)", src[ln_ - back]) if ln_ - back >= 0 else None
+                        if mm:
+                            c_ = int(mm.group(1))
+                            break
+                ew = wire.ty_width(m_.group(1)) if m_ else None
+                if c_ is None or ew is None:
+                    ok_struct = False
+                    break
+                wdt = c_ * ew
+            r_bytes += wdt
+        if not ok_struct or not w_bytes:
+            ctx.note_unarmed(R_mogp, "write_group", "header widths not computable (writer %s, reader %s)" % (w_bytes, r_bytes if ok_struct else "?"))
+        elif w_bytes == r_bytes:
+            ctx.ok(R_mogp, {"writer_bytes": w_bytes, "reader_bytes": r_bytes})
+        else:
+            ctx.bad(R_mogp, "write_group|MOGP-header-width", wg.where, "write_group emits a %d-byte group header, parse_group_file reads %d bytes before the sub-chunks" % (w_bytes, r_bytes),
+                    "every sub-chunk of a written group is looked for %d bytes too far in: the group parses back with no vertices / indices / batches" % (r_bytes - w_bytes))
 
     # string tables are addressed by *byte* offset: every running offset / size over names advances by the byte length
     R_bytes = ctx.rule("C15.string-table-offsets-count-bytes", "in the writer every accumulation over a name (`x += name.<len> + 1`) uses the byte length `.len()`, the unit in which the names are emitted", floor=4)
